@@ -241,7 +241,7 @@ class Models:
             return Tup([self.default_for(x) for x in split_top(inner)]) if inner else UNIT
         if last == 'Vec': return RVec([])
         if last == 'Option': return NONE()
-        if last == 'String': return ''
+        if last == 'String' or t in ('&str', "&'static str") or last == 'str': return ''
         if last == 'bool': return False
         if last in ('usize', 'isize', 'u8', 'u16', 'u32', 'u64', 'i8', 'i16', 'i32', 'i64', 'u128', 'i128'): return 0
         if last == 'HashMap': return RMap()
